@@ -52,7 +52,9 @@ def check_program(ex, program, what):
     ref = R.source(program['source'])
     ds = B.source(program['source'])
     prog = {'source': program['source'], 'ops': []}
+    tags = frozenset()
     for op in program['ops']:
+        tags = tags | seqmc.structural_tags(ref, op)
         try:
             cref = R.apply(ref, op)
         except R.Refuse:
@@ -64,10 +66,10 @@ def check_program(ex, program, what):
         except BaseException as e:      # noqa: BLE001
             ex.stats['states'] += 1
             ex.judge([(f'build-refused:{O.exc_name(e)}', f'building the stage raised {O.exc_name(e)}: {str(e)[:80]!r}')],
-                     cref, prog, frozenset())
+                     cref, prog, frozenset(), tags)
             return False
         ds, ref = cds, cref
-    ok, _ = ex.check_state(ds, ref, prog, frozenset())
+    ok, _ = ex.check_state(ds, ref, prog, frozenset(), tags)
     return ok
 
 
@@ -79,7 +81,7 @@ class Explorer14(seqmc.Explorer):
         exc = raising[0][1] if raising else 'none'
         for kind, detail in mism:
             kind, _, sub = kind.partition(':')
-            key = f'{kind}/{stage}/injected-{exc}' + (f'/{sub}' if sub else '')
+            key = f'{kind}/{stage}/injected-{exc}' + (f'/{sub}' if sub else '') + ''.join('@' + t for t in sorted(tags))
             self.violations.append(common.Violation(
                 'C14', key, f'{seqmc.describe(program)}: {detail}',
                 {'engine': 'seqmc', 'program': program, 'what': sorted(self.what)}).to_json())
